@@ -97,6 +97,11 @@ func seqOps() []seqOp {
 		{"s.B+=x", one(&fl.OpAssign{Op: "+=", LHS: fl.F(s, "B"), RHS: &fl.Cast{X: x, T: i64}})},
 		{"s.C=b", one(as(fl.F(s, "C"), b))},
 		{"copy-s", blk(&fl.Let{Name: "t", Init: s}, as(fl.F(fl.V("t"), "A"), l(99)), fl.P(fl.F(fl.V("t"), "A")), fl.P(fl.F(fl.V("t"), "B")))},
+		// the new value is a literal whose parts read the variable being assigned
+		{"rot-a", one(as(a, &fl.ArrLit{Elems: []fl.Expr{fl.Ix(a, l(2)), fl.Ix(a, l(0)), fl.Ix(a, l(1))}}))},
+		{"rot-s", func() []fl.Stmt {
+			return []fl.Stmt{as(s, &fl.StructLit{T: seqShared.st, Vals: []fl.Expr{&fl.Cast{X: fl.F(s, "C"), T: i32}, &fl.Cast{X: fl.F(s, "A"), T: i64}, &fl.Cast{X: fl.F(s, "B"), T: u8}}})}
+		}},
 		{"swap-fields", blk(&fl.Let{Name: "t", Init: fl.F(s, "A")}, as(fl.F(s, "A"), &fl.Cast{X: fl.F(s, "C"), T: i32}), as(fl.F(s, "C"), &fl.Cast{X: fl.V("t"), T: u8}))},
 		{"a[1]=x", one(as(fl.Ix(a, l(1)), x))},
 		{"a[-1]=a[0]+1", one(as(fl.Ix(a, l(-1)), fl.B("+", fl.Ix(a, l(0)), l(1))))},
